@@ -41,9 +41,9 @@ theorem step_kick (cfg : Config) (h : Nat) (nb : Option Nat) (hw : cfg.waitTxs =
   rw [if_neg (by simp [started, init, schedule])]
   simp only
   unfold enterNewRound
-  rw [if_neg (by simp [started, init, schedule])]
+  rw [if_neg (by simp [started, init, schedule]), if_neg (by simp [started, init, schedule])]
   simp only [hw, Bool.false_and]
-  rw [newRoundPrep_started]
+  rw [newRoundPrep_started, releaseStale_unlocked _ _ rfl]
   unfold enterPropose
   rw [if_neg (by simp)]
   rw [if_neg (by simp [round1, started, init, schedule, Step.toNat])]
@@ -81,9 +81,9 @@ theorem step_kick_wait1 (cfg : Config) (h : Nat) (nb : Option Nat) (hw : cfg.wai
   rw [if_neg (by simp [started, init, schedule])]
   simp only
   unfold enterNewRound
-  rw [if_neg (by simp [started, init, schedule])]
+  rw [if_neg (by simp [started, init, schedule]), if_neg (by simp [started, init, schedule])]
   simp only [hw, he, Bool.true_and]
-  rw [newRoundPrep_started]
+  rw [newRoundPrep_started, releaseStale_unlocked _ _ rfl]
   rfl
 
 theorem step_kick_wait2 (cfg : Config) (h : Nat) (nb : Option Nat) :
